@@ -23,6 +23,7 @@ class Kernel:
     parallel: bool = False
     sigs: List[List[Tuple[str, int]]] = field(default_factory=list)  # per signature: [(dtype, ndim)]
     layout: Optional[str] = None
+    options: Dict[str, str] = field(default_factory=dict)   # keyword options of the numba decorator
     in_dims: List[Tuple[str, ...]] = field(default_factory=list)
     out_dims: List[Tuple[str, ...]] = field(default_factory=list)
 
@@ -135,6 +136,7 @@ def load_kernels(repo: Repo) -> Dict[str, Kernel]:
             nopython = rec["dec"] == "njit" or (isinstance(kw.get("nopython"), ast.Constant) and kw["nopython"].value is True)
             parallel = isinstance(kw.get("parallel"), ast.Constant) and kw["parallel"].value is True
             k = Kernel(fn.name, dotted, m.rel, fn, rec["kind"], rec["lazy"], nopython, parallel)
+            k.options = {name: ast.unparse(v) for name, v in kw.items() if name}
             if rec["kind"] == "guvectorize":
                 if len(call.args) < 2:
                     raise AnalysisError(f"guvectorize needs signatures and layout: {m.rel}:{fn.name}")
